@@ -199,7 +199,7 @@ func concRequests(r *rng, nss []*namespace.Namespace, motifQ []*ketoapi.Relation
 		if r.chance(1, 4) {
 			rd = r.intn(11) - 3
 		}
-		if i < len(motifQ) {
+		if i < len(motifQ) && !costly(motifQ[i]) {
 			q, rd = motifQ[i], 0
 		}
 		qs = append(qs, q)
@@ -430,6 +430,14 @@ func suiteConc(t *testing.T, cfg cfgT) {
 		b := newEnvDSN(t, &dbx.DsnT{Name: dsn.Name, Conn: dsn.Conn}, opts...)
 		if b.nid != a.nid {
 			t.Fatalf("registries serve different networks")
+		}
+		if !useOPL && rounds%2 == 0 {
+			// a configuration reload just before the requests arrive (same namespaces): the namespace manager is dropped
+			// and rebuilt lazily by whichever request comes first
+			if err := b.reg.Config(context.Background()).Set(config.KeyNamespaces, nss); err != nil {
+				t.Fatalf("reload: %v", err)
+			}
+			out.stat("rounds.reloaded")
 		}
 		results := make([][]string, G)
 		orders := make([][]int, G)
